@@ -408,7 +408,16 @@ impl Prop for C12 {
                     let _ = has_dead_column;
                     // the second text must at least denote the same model as the first
                     let same = |x: &LinCase, y: &LinCase| same_linear_full(x, y, false, false, true).is_ok() || equivalent(x, y);
+                    // the recorded finding is about models that are equivalent but written with other
+                    // rows or domains; two models that are the same number for number and still print
+                    // differently (a bound -0 next to 0) are a rendering defect of their own
+                    let literally_same = lc.vars == l2c.vars
+                        && lc.obj == l2c.obj
+                        && lc.offset == l2c.offset
+                        && lc.rows.len() == l2c.rows.len()
+                        && lc.rows.iter().zip(&l2c.rows).all(|(x, y)| x.name == y.name && x.coef == y.coef && x.rhs == y.rhs && format!("{:?}", x.rel) == format!("{:?}", y.rel));
                     let class = match pipeline(&t3) {
+                        _ if literally_same => ":same-numbers-other-text",
                         Ok(l3) if same(&l2c, &LinCase::from_rooc(&l3)) && same(&lc, &l2c) => ":equivalent-model",
                         _ => "",
                     };
